@@ -91,6 +91,7 @@ func H_A1_ClaimAlwaysSucceeds() {
 	vrf.Observe("released", got)
 	vrf.Assert(!got.IsNegative(), "A1: a claim releases a non-negative amount")
 	vrf.Assert(env.W.SupplyOf(ptypes.Elys).Sub(supply0).Equal(got), "A1: exactly what is released is minted")
+	vrf.Assert(env.W.SupplyOf(ptypes.Elys).Sub(supply0).Equal(got), "C15: the native token's supply grows by exactly what the vesting claim releases")
 	c2 := env.Comm.GetCommitments(ctx, alice)
 	if len(c2.VestingTokens) == 0 {
 		vrf.Cover("removed")
@@ -224,4 +225,5 @@ func H_A5_VestNow() {
 	vrf.Assert(got.AddRaw(1).Mul(sdkmath.NewInt(f)).GT(amt), "A5: vest-now pays at least floor(amount/factor)")
 	c3 := env.Comm.GetCommitments(ctx, alice)
 	vrf.Assert(c3.GetClaimedForDenom(ptypes.Eden).Equal(eden0.Sub(amt)), "A5: exactly the amount is consumed")
+	vrf.Assert(c3.GetClaimedForDenom(ptypes.Eden).Equal(eden0.Sub(amt)), "C15: the native tokens a vest-now mints are paid for with consumed Eden (the release cannot be repeated)")
 }
